@@ -15,15 +15,8 @@ theorem fragment_reverse_source_cases (f : Fragment) (newOid : Nat) :
       if (f.strand = 0 ∨ f.strand = 1 ∨ f.strand = -1) ∧ f.start ≤ f.stop then .ok { f.reverse with oid := newOid }
       else .error .value := by
   unfold Gen.Imp.Fragment_reverse mkFragment Fragment.reverse
-  by_cases hs : (-1 * f.strand = 0 ∨ -1 * f.strand = 1 ∨ -1 * f.strand = -1)
-  · have hs' : f.strand = 0 ∨ f.strand = 1 ∨ f.strand = -1 := by omega
-    by_cases hse : f.start > f.stop
-    · have : ¬ f.start ≤ f.stop := by omega
-      simp [hs, hse, this, bind, Except.bind]
-    · have : f.start ≤ f.stop := by omega
-      simp [hs, hs', hse, this, bind, Except.bind]
-  · have hs' : ¬ (f.strand = 0 ∨ f.strand = 1 ∨ f.strand = -1) := by omega
-    simp [hs, hs', bind, Except.bind]
+  simp only [bind, Except.bind]
+  grind
 
 /-- for a Fragment that passed `Fragment.__init__`'s checks the source's `reverse()` builds the model's reversed fragment (a NEW object) -/
 theorem fragment_reverse_is_source (f : Fragment) (newOid : Nat) (hs : f.strand = 0 ∨ f.strand = 1 ∨ f.strand = -1) (hse : f.start ≤ f.stop) :
@@ -33,11 +26,11 @@ theorem fragment_reverse_is_source (f : Fragment) (newOid : Nat) (hs : f.strand 
 /-- the hypotheses are met, and the generated function runs -/
 example :
     Gen.Imp.Fragment_reverse { oid := 3, name := ['c'], start := 4, stop := 9, strand := 1, tags := [['t']] } 7
-      = .ok { oid := 7, name := ['c'], start := 4, stop := 9, strand := -1, tags := [['t']] } := by decide
+      = .ok { oid := 7, name := ['c'], start := 4, stop := 9, strand := -1, tags := [['t']] } := by rfl
 example : ((1 : Int) = 0 ∨ (1 : Int) = 1 ∨ (1 : Int) = -1) ∧ (4 : Int) ≤ 9 := by decide
 /-- outside the hypotheses the source raises where the model's `Fragment.reverse` returns a fragment -/
-example : Gen.Imp.Fragment_reverse { name := ['c'], start := 4, stop := 9, strand := 2 } 7 = .error .value := by decide
-example : Gen.Imp.Fragment_reverse { name := ['c'], start := 9, stop := 4, strand := 1 } 7 = .error .value := by decide
+example : Gen.Imp.Fragment_reverse { name := ['c'], start := 4, stop := 9, strand := 2 } 7 = .error .value := by rfl
+example : Gen.Imp.Fragment_reverse { name := ['c'], start := 9, stop := 4, strand := 1 } 7 = .error .value := by rfl
 
 /-- `to_scaffold` never raises and its rows are the model's `toScaffoldRows` -/
 theorem to_scaffold_is_source (o : OverlapResult) :
@@ -62,6 +55,6 @@ example :
                  .frag { name := ['d'], start := 11, stop := 20, strand := -1 }] }
     = .ok { name := ['n'], originalName := some ['o'],
             rows := [.frag { name := ['d'], start := 11, stop := 20, strand := 1 }, .gap { length := 5, gapType := ['s'] },
-                     .frag { name := ['c'], start := 1, stop := 5, strand := -1 }] } := by decide
+                     .frag { name := ['c'], start := 1, stop := 5, strand := -1 }] } := by rfl
 
 end AgpTpf.C14
